@@ -130,7 +130,7 @@ func (e *Engine) checkProperty(verif, prop, tier string, t0 time.Time) int {
 	} else {
 		var keep []string
 		for _, n := range names {
-			if _, ok := e.funcs[n]; !ok && !strings.HasPrefix(n, "bv:") {
+			if _, ok := e.funcs[n]; !ok && !strings.HasPrefix(n, "bv:") && !strings.HasPrefix(n, "own:") {
 				missing = append(missing, n)
 				continue
 			}
@@ -364,7 +364,7 @@ func (e *Engine) sweepRoots() []string {
 		}
 		out = append(out, n)
 	}
-	out = append(out, "bv:attrsBitmap")
+	out = append(out, "bv:attrsBitmap", "own:fields")
 	return out
 }
 
